@@ -642,7 +642,7 @@ func runC14(c *Ctx) {
 								for _, b2 := range rf.Blocks {
 									if iff, isIf := b2.Instrs[len(b2.Instrs)-1].(*ssa.If); isIf {
 										if cmp, isCmp := iff.Cond.(*ssa.BinOp); isCmp && cmp.Op == token.EQL {
-											if k, isK := constInt(cmp.Y); isK && k == 0x8003 && b2.Succs[0].Dominates(b) {
+											if k, isK := constInt(cmp.Y); isK && k == 0x8003 && edgeDominates(b2, 0, b) {
 												okS = true
 											}
 										}
@@ -779,7 +779,7 @@ func (c *Ctx) recordCreationRule(rule string) {
 							v = cv.X
 						}
 						_, path := loadPath(v)
-						if len(path) > 0 && path[len(path)-1] == "SubPackageNo" && b2.Succs[0].Dominates(b) {
+						if len(path) > 0 && path[len(path)-1] == "SubPackageNo" && edgeDominates(b2, 0, b) {
 							ok, d = true, ""
 							// … by every packet numbered 1: no path from the test's true side to the code behind it avoids the creation
 							seen := map[*ssa.BasicBlock]bool{b: true}
